@@ -199,7 +199,7 @@ def obligations(tier, seed):
     return [Obligation(name, harness_for(name, P, hz(name)), D.program_text(P).replace("\n", " ; ")[:400],
                        {"steps": hz(name), "items": "<=3", "preconditions": "step-indexed symbolic tables", "rng": "all outcomes (symbolic)"},
                        enc, ["random.choices / random.randint: logging models returning symbolic values"],
-                       opts=dict(total_timeout=500.0, per_path_timeout=40.0), setup=warm(name, P))
+                       opts=dict(total_timeout=(500.0 if tier == "quick" else 2400.0), per_path_timeout=40.0), setup=warm(name, P))
             for name, P in {**corpus(), **generated(seed, int(os.environ.get("C19_GENERATED", "4" if tier == "quick" else "40")))}.items()]
 
 
